@@ -16,12 +16,16 @@ PROPERTY = "C17"
 LEVEL = "exploration"
 RULE = ("Hypothesis builds arrays of 1..50 elements (strictly increasing abscissae of six spacing kinds or values of "
         "seven kinds; int64 / float64 / Python list), n in 1..16 (1, 2, 3 over-weighted), direction both/left/right/"
-        "omitted, explicit lstart/rstop below, at or above the data, interval sizes that do and do not divide the "
-        "length, index pairs (i, j) with i*n+j inside the array; lengths 1 and 2 over-weighted wherever the "
-        "documented precondition allows them. One sub-check per helper family, each compared with a closed form "
-        "written from the docstrings. Non-trivial = length not divisible by n, or n >= 2 with non-uniform data "
-        "(append: non-uniform x or y[0] != y[-1]; integrals: >= 2 gaps with non-uniform x or y; indexing: an "
-        "index pair with i > 0 and j > 0); distinct = distinct full input.")
+        "omitted, explicit lstart/rstop below, at or above the data or exactly 0 / 0.0 / -0.0, interval sizes that do "
+        "and do not divide the length, index pairs (i, j) with i*n+j inside the array; lengths 1 and 2 over-weighted "
+        "wherever the documented precondition allows them; value kinds include exact zeros at random positions and "
+        "'mixed magnitude' (rows of non-dyadic O(0.1) values next to rows of 1e12-scale peaks). One sub-check per "
+        "helper family, each compared with a closed form written from the docstrings, plus histories of 3..12 "
+        "operations (reads, writes, views, len, full-interval count, iteration, extensions) on ONE IntervalArray "
+        "compared with a list model after every step. Non-trivial = length not divisible by n, or n >= 2 with "
+        "non-uniform data (append: non-uniform x or y[0] != y[-1]; integrals: >= 2 gaps with non-uniform x or y; "
+        "indexing: an index pair with i > 0 and j > 0; history: an observer called after a write or an extension); "
+        "distinct = distinct full input.")
 ASSUMPTIONS = ["default end values of extend_linspace need len(a) > n (documented mirror point a[n] / a[-1-n]); "
                "with both end values explicit any length >= 1 is used",
                "append_one_sample needs >= 2 samples (uses the last step)",
@@ -29,13 +33,22 @@ ASSUMPTIONS = ["default end values of extend_linspace need len(a) > n (documente
                "with non-decreasing indices inside 0..len(a)",
                "index pairs are Python ints with 0 <= j < n and i*n+j < len(a)",
                "'bitwise' clauses are checked as exact value equality (==, NaN matching NaN): numpy.linspace turns "
-               "-0.0 into +0.0; computed values: |got-want| <= 1e-12 * magnitude of the operands"]
+               "-0.0 into +0.0; interpolated / extrapolated values: |got-want| <= 1e-12 * magnitude of the two operands",
+               "sums and means (average, round trip, sum_over_indices, integral rules) are compared with exact rational "
+               "values; tolerance 2*k ulp of the magnitude of THAT row / range / element only (k = number of rounded "
+               "operations; twice the a-priori bound of any summation order), exact when a row or range holds one value",
+               "the 2-D views are not asserted to be copies or aliases (the docstrings promise neither); only that a "
+               "view requested after a write or an extension shows the current contents",
+               "histories: written values are ints for int64 arrays (an int array silently truncates floats); "
+               "IntervalArray.extend_linspace only while len > n"]
 TECHNIQUE = ("Hypothesis-generated arrays / interval sizes / directions / end values checked against closed-form and "
              "plain-loop reference models of every helper, plus the oversample-then-average round trip")
 LEVEL_TEXT = ("Randomized exploration of small inputs (length <= 50, n <= 16: the helpers are index arithmetic, every "
               "boundary - length 1, n = 1, remainder 0..n-1, each direction, explicit end values on either side - is "
               "reached many times) against independent closed forms; exact comparison wherever the contract is a copy, "
-              "1e-12 relative otherwise. Exploration, not proof.")
+              "a few ulp of the local magnitude for sums / means (exact rational oracle), 1e-12 relative for "
+              "interpolation. Model-based histories on one object expose state kept between calls. Exploration, not "
+              "proof.")
 LEVEL_NOTE = "trusts the closed forms in this module (a few lines each, no traffic_weaver import) and the tolerance"
 
 RTOL = 1e-12
@@ -624,6 +637,7 @@ def integral_body(ctx, case):
     # range sums over the values y (any array-like) and over the elementary trapezoid integrals
     idx = case["indices"]
     for label, vals in (("y", yf), ("trapezoid", [float(w) for w, _ in trap])):
+        idx = [min(i, len(vals)) for i in case["indices"]]       # indices stay inside 0..len(a)
         src = list(vals) if case["sum_as_list"] else np.array(vals, dtype=float)
         ind = list(idx) if case["sum_as_list"] else np.array(idx, dtype=np.int64)
         got = _vec(sau.sum_over_indices(src, ind), f"sum_over_indices({label})", len(idx) - 1)
